@@ -1,5 +1,5 @@
 import UmProofs.BackendConn
-import UmProofs.BackendPoison
+import UmProofs.BackendRetry
 import UmProofs.Session
 /-!
 # C08 — Every request gets exactly one reply, in order, from its own backend exchange
@@ -24,8 +24,9 @@ open Um.BackendConn
    result by the machine (`pendingIds`: retry state, connection queue or channel) or has received one;
 2. *at most once*: if task ids are unique no task receives two results;
 3. *exactly once at quiescence*: when nothing is owed any more (in particular after the queue was
-   closed, `C08_close_quiesces`, or after retries were exhausted / a time-out / a refused connect,
-   `C08_failure_is_error`) every enqueued task has received exactly one result;
+   closed, `C08_close_quiesces`, or after retries were exhausted — which `C08_retry_bounded` shows
+   must happen — / a time-out / a refused connect, `C08_failure_is_error`) every enqueued task has
+   received exactly one result;
 4. *own reply*: under the in-order backend assumption a result `Ok(reply)` delivered to task `id`
    is tagged `id` — never another request's reply;
 5. results go to enqueued tasks only. -/
@@ -115,64 +116,50 @@ theorem C08_close_quiesces (s : St) (hwf : WF s) (hc : s.closed = true)
     have hr := hwf.2 (by simp [hp])
     simp [step, hp, drainWaiting, hc, pendingIds, hr, ht]
 
-/-! ### F08b — the retry budget is not a bound (negation of the full-strength liveness claim)
+/-! ### The retry budget is a bound (F08b, fixed by commit 0e64416)
 
-Full-strength reading of "a request whose backend exchange ultimately fails receives an error
-reply, never silence": after more than `MAX_BACKEND_RETRY` failed exchanges the task is answered.
-That is false for the code: `retry_times_opt` is `Some` only in the first poll of a connection, so
-a connection that breaks in any later poll (the normal case with a real socket: the write
-succeeds, the peer closes afterwards) restarts the count at 1. -/
+Before the fix `retry_times_opt` was `Some` only in the first poll of a connection, so a connection
+that broke in a later poll restarted the count and a request whose every exchange failed
+circulated for ever (the former `C08_retry_unbounded`).  Now the count lives as long as the
+connection and is cleared only when a reply leaves the task queue empty. -/
 
-/-- **C08_retry_unbounded** (finding F08b, proved negation of "answered after at most
-`1 + MAX_BACKEND_RETRY` failed exchanges"): for every `n` there is an event sequence, compatible
-with an in-order backend, in which request 1 is written on `n` successive connections, each of
-which breaks, and after which it has received *no* result and is still owed one. -/
-theorem C08_retry_unbounded (n : Nat) :
-    ∃ evs : List Ev, evs.count .peerClosed = n ∧ evs.count .write = n ∧ InOrder init evs ∧
-      (run init evs).2 = [] ∧ pendingIds (run init evs).1 = [1] := by
-  let evs := Ev.enqueue (.simple 1) :: poison n
-  have h0 : Circulating (step init (.enqueue (.simple 1))).1 := by
-    simp [Circulating, step, init]
-  obtain ⟨h1, h2, h3, h4⟩ := poison_spec n _ h0
-  have hw : ∀ m, (poison m).count .write = m := by
-    intro m
-    induction m with
-    | zero => simp [poison]
-    | succ m ih =>
-      simp only [poison, List.count_append, ih]
-      have : cycle.count .write = 1 := by decide
-      omega
-  refine ⟨evs, ?_, ?_, ?_, ?_, ?_⟩
-  · show (Ev.enqueue (.simple 1) :: poison n).count .peerClosed = n
-    rw [List.count_cons]; simp [h4]
-  · show (Ev.enqueue (.simple 1) :: poison n).count .write = n
-    rw [List.count_cons]; simp [hw n]
-  · exact ⟨trivial, h3⟩
-  · show (run init (Ev.enqueue (.simple 1) :: poison n)).2 = []
-    simp only [run, h2]
-    simp [step, init]
-  · show pendingIds (run init (Ev.enqueue (.simple 1) :: poison n)).1 = [1]
-    simp only [run]
-    obtain ⟨_, _, ht, hr⟩ := h1
-    rcases hr with ⟨hr, hch⟩ | ⟨k, hr, _, hch⟩ <;> simp [pendingIds, hr, hch, ht, Task.ids]
-
-/-- **C08_retry_bound_partial** — what *is* bounded: when a connection that was opened with a used-up
-budget (`retry_times = MAX_BACKEND_RETRY`) breaks in its first poll, every retried task is answered
-with an error; and `handle_conn_err` increments the count exactly when the break is in the first
-poll.  (Gap: no bound when connections break after their first poll — `C08_retry_unbounded`.) -/
-theorem C08_retry_bound_partial (s : St) (ts : List Task) (id : Id)
-    (hp : s.phase = .connecting) (hr : s.retry = some (MAX_BACKEND_RETRY, ts)) (hc : s.closed = false)
-    (hch : s.chan = []) :
-    ocnt id (run s [.connOk, .poll, .peerClosed]).2 = cnt id ts ∧
-    pendingIds (run s [.connOk, .poll, .peerClosed]).1 = [] ∧
-    (∀ p ∈ (run s [.connOk, .poll, .peerClosed]).2, p.2.isError = true) := by
-  have hge : MAX_BACKEND_RETRY ≥ MAX_BACKEND_RETRY := Nat.le_refl _
-  refine ⟨?_, ?_, ?_⟩
-  · simp [run, step, hp, hr, hc, hch, drainUp, connErr]
-  · simp [run, step, hp, hr, hc, hch, drainUp, connErr, pendingIds]
-  · simp only [run, step, hp, hr, hc, hch, drainUp, connErr, List.append_nil, List.nil_append]
-    simp only [Option.getD_some, hge, if_true, Bool.false_eq_true, if_false, List.nil_append]
-    exact answerAll_isError _ _ rfl
+/-- **C08_retry_bounded** — "never silence".  In every reachable state (`pre` arbitrary):
+1. the retry level (`retry_times_opt` of the live connection / `retry_state.retry_times` between
+   two connections) is at most `MAX_BACKEND_RETRY`;
+2. along any continuation `evs` during which the machine always holds some task (inherited for a
+   retry or in the connection's queue — in particular while one given task stays unanswered), the
+   level never drops and grows by exactly one per connection failure, so there are at most
+   `MAX_BACKEND_RETRY - level ≤ MAX_BACKEND_RETRY` failures: a held request is written on at most
+   `1 + MAX_BACKEND_RETRY` connections;
+3. a connection failure at level `MAX_BACKEND_RETRY` answers every held task, written or not, with
+   an error and owes nothing more (a time-out does so at any level, `C08_failure_is_error`). -/
+theorem C08_retry_bounded (pre evs : List Ev) :
+    lvl (run init pre).1 ≤ MAX_BACKEND_RETRY ∧
+    (HeldAlong (run init pre).1 evs →
+      lvl (run (run init pre).1 evs).1 = lvl (run init pre).1 + fails (run init pre).1 evs ∧
+      fails (run init pre).1 evs ≤ MAX_BACKEND_RETRY) ∧
+    (∀ (s : St) (e : Ev) (id : Id), s.phase = .up → lvl s ≥ MAX_BACKEND_RETRY →
+      (e = .peerClosed ∨ ∃ k, e = .writeErr k) →
+      ocnt id (step s e).2 = cnt id s.tasks ∧ (step s e).1.retry = none ∧ (step s e).1.tasks = [] ∧
+      (step s e).1.phase = .connecting ∧ ∀ p ∈ (step s e).2, p.2.isError = true) := by
+  have h0 : lvl init ≤ MAX_BACKEND_RETRY := by simp [lvl, init]
+  obtain ⟨hwf, hle⟩ := run_wf_lvl pre init WF_init h0
+  refine ⟨hle, ?_, ?_⟩
+  · intro hh
+    have h1 := run_lvl evs _ hwf hh
+    have h2 := (run_wf_lvl evs _ hwf hle).2
+    exact ⟨h1, by omega⟩
+  · intro s e id hp hl he
+    have hl' : MAX_BACKEND_RETRY ≤ s.retryTimes.getD 0 := by simpa [lvl, hp] using hl
+    have herr : ∀ p ∈ (step s e).2, p.2.isError = true := by
+      apply step_isError
+      intro it hit
+      rcases he with he | ⟨k, he⟩ <;> rw [he] at hit <;> cases hit
+    rcases he with he | ⟨k, he⟩
+    · subst he
+      refine ⟨?_, ?_, ?_, ?_, herr⟩ <;> simp [step, hp, connErr, hl']
+    · subst he
+      refine ⟨?_, ?_, ?_, ?_, herr⟩ <;> simp [step, hp, connErr, hl']
 
 /-! ### Session half -/
 
@@ -254,6 +241,22 @@ example :
 example :
     (run init [.enqueue (.simple 9), .connOk, .poll, .writeErr .io, .connOk, .poll, .writeErr .io,
       .connOk, .poll, .writeErr .io, .connOk, .poll, .writeErr .io]).2 = [(9, .err .io)] := by decide
+
+/-- the F08b regression: the request is written, the peer closes in a *later* poll, four times: the
+fourth failure answers it (before the fix it circulated for ever) -/
+example :
+    let cyc : List Ev := [.connOk, .poll, .write, .pollEnd true, .poll, .peerClosed]
+    (run init (.enqueue (.simple 1) :: (cyc ++ cyc ++ cyc ++ cyc))).2 = [(1, .err .backend)] ∧
+    pendingIds (run init (.enqueue (.simple 1) :: (cyc ++ cyc ++ cyc ++ cyc))).1 = [] ∧
+    fails init (.enqueue (.simple 1) :: (cyc ++ cyc ++ cyc ++ cyc)) = 4 := by decide
+
+/-- `HeldAlong` is satisfiable: three failing exchanges with the request held throughout -/
+example :
+    let cyc : List Ev := [.connOk, .poll, .write, .pollEnd true, .poll, .peerClosed]
+    HeldAlong (run init [.enqueue (.simple 1), .connOk, .poll]).1
+      ([.write, .pollEnd true, .poll, .peerClosed] ++ cyc ++ cyc) := by
+  simp [HeldAlong, held, retryTasks, run, step, init, drainUp, connErr, MAX_BACKEND_RETRY,
+    Um.Gen.Backend.MAX_BACKEND_RETRY]
 
 /-- time-out: a written request, no reply between two ticks -/
 example :
